@@ -346,6 +346,10 @@ def layer_b_fmodules(ck, rng, table, n_random):
         try:
             if r.get('errors') == 0:
                 parsed = fexprs.module_from_json(r['raw'])
+                if any(not (10 <= n <= 99) for ms, parts in parsed[0] for n in list(ms) + [x for _, x in parts]):
+                    # the model orders names by their numbers; C10..C99 / v10..v99 are the spellings whose order is the numeric one
+                    ck.count('declaration-level source texts skipped (import names outside the order-preserving range 10..99)')
+                    continue
                 kn = bool(exprs.tree_classes(table, r['raw']['toplevels']) & {'K1', 'K3'})
                 conflict = py_import_conflict(parsed[0])
                 p = r.get('printed') or {}
@@ -678,10 +682,15 @@ def run(tier, seed, replay=None):
         'hand models: C08/Model.v (parser levels, printer decisions: the non-commutative set {- / %}, the three-way Binary rule, the '
         'may_end_with_field_name guard on the left operand of `<` and the equal-level parentheses of a unary operand are copied by hand), C08/Layout.v (prettier.rs), C08/Lit.v (string/int literal lexing and printing) - each differentially executed '
         'against the real printer, lexer and parser on every run',
-        'fragment model (Model.v): atoms, field access, one-argument call, block with one expression, unary, binary, if/else, one-arm match, '
-        'one-parameter lambda; full model (F*.v): all expressions and statements, patterns, type annotations - hand-written, statement by '
-        'statement after source_parser.rs / source_printer.rs, tied by the same three-way differential plus a parser-only tie on source texts '
-        'the printer never emits; syntax errors are `None`, the nesting limit (200) is not modelled',
+        'fragment model (Model.v, theorems 1-25): atoms, field access, one-argument call, block with one expression, unary, binary, if/else, '
+        'one-arm match, one-parameter lambda',
+        'full model (F*.v, theorems 26-48): every expression and statement form, patterns, type annotations, declarations, imports - hand-written, '
+        'function by function after source_parser.rs / source_printer.rs; a syntax error is `None`; literal tokens the lexer cannot produce '
+        '(int out of range, string interior it would not walk over) are rejected by the model parser; NOT modelled: comments (C09), error '
+        'recovery, the nesting limit MAX_NESTING_DEPTH = 200; names are numbers in the order of their spellings (the tie uses C10..C99 / v10..v99 '
+        'where the printer sorts); tied on every run by (a) real printer tokens = fimpl, (b) real parser on the output = parse_fexpr / parse_module, '
+        '(c) class predicates Coq = Python, (d) real parser on source texts the printer never emits (trailing commas, cover-grammar paths, '
+        'token mutants, declaration corner cases) = model parser, (e) theorem instances (round trip, resolve invariance) on the observations',
         'harness JSON <-> Gallina translation (gen/exprs.py, checks/c08.py)',
     ]
     try:
